@@ -6,12 +6,16 @@ import (
 	"os"
 	"strconv"
 	"strings"
+	"verifharness/shim"
 
 	"verifharness/driver"
 	_ "verifharness/registry"
 )
 
 func main() {
+	// the core keeps the first logger it sees: install the production-mode logger before anything in the core logs
+	// (its fallback logger is in development mode, where a DPanic log line panics the process)
+	shim.InitLogger()
 	if len(os.Args) < 2 {
 		fmt.Println("usage: vrun check Cxx [--tier quick|thorough] | vrun worker ...")
 		os.Exit(2)
@@ -73,6 +77,12 @@ func main() {
 		for i := from; i < to; i++ {
 			seed := driver.CaseSeed(1, prop, i)
 			r := driver.Specs[prop].Run(prop, seed, i, "quick", "/tmp", nil)
+			if os.Getenv("VERIF_VERBOSE") != "" && r.Sample != nil {
+				fmt.Printf("---- case %d seed %#x obs %v\n", i, seed, r.Obs)
+				for _, o := range r.Sample.Ops {
+					fmt.Println("   ", o)
+				}
+			}
 			for _, v := range r.Violations {
 				fmt.Printf("case %d seed %#x step %d op %q: %s: %s\n", i, seed, v.Step, v.Op, v.Signature, v.Text)
 			}
